@@ -196,8 +196,33 @@ class Thing:
     pass
 
 
-def rand_output(seed: int, big: bool = False):
-    """a deterministic Output from (seed, big) — the replay files store only these"""
+POISONS = ["tuple-key", "bytes-key", "nested-key", "circular", "no-func"]
+
+
+def poison_output(out, poison: str):
+    """make the metadata of `out` un-serialisable (in place): `json.dump` then raises PART-WAY through the dump (the matrices
+    come first in the entry), or — `no-func` — `Output.metadata` raises before anything is written"""
+    ns = out.parsed_args
+    if poison == "tuple-key":           # json: keys must be str, int, float, bool or None; `default=` does not cover keys
+        ns.pair_weights = {(0, 1): 0.5, (1, 2): 0.25}
+    elif poison == "bytes-key":
+        ns.table = {"fine": 1, b"raw": 2}
+    elif poison == "nested-key":
+        ns.sizes = [1, {"deep": [{"ok": 0.5, frozenset([1, 2]): 3}]}]
+    elif poison == "circular":          # ValueError: Circular reference detected
+        loop: list = [1, 2.5]
+        loop.append({"again": loop})
+        ns.loop = loop
+    elif poison == "no-func":           # KeyError in Output.metadata
+        del ns.func
+    else:
+        raise ValueError(f"unknown poison {poison}")
+    return out
+
+
+def rand_output(seed: int, big: bool = False, nonfinite: bool = False):
+    """a deterministic Output from (seed, big, nonfinite) — the replay files store only these.
+    nonfinite: the gap matrix is guaranteed to hold a NaN / +inf / -inf cell (two when it has more than one cell)"""
     import random
     from incomplete_cooperative.run.save import Output
     rnd = random.Random(seed)
@@ -232,10 +257,22 @@ def rand_output(seed: int, big: bool = False):
         ns.callback = solve_like          # a callable other than func → repr string
     if rnd.random() < 0.3:
         ns.model_path = Path("/foo/bar/model")
+    if nonfinite:
+        cells = [(i, j) for i in range(r) for j in range(c)]
+        for (i, j), v in zip(rnd.sample(cells, min(2, len(cells))), rnd.sample([float("nan"), float("inf"), float("-inf")], 2)):
+            data[i, j] = v
     return Output(data, actions, ns), kind
 
 
 NAMES = ["a", "b", "run 1", "ü", "", "data", "x/y", "a" * 40, "NaN", "q\"uote", "new\nline", "0"]
+FULL_NAMES = ["a", "b", "run 1", "ü", "data", "NaN", "q\"uote", "0", "data.json"]     # usable as a file / directory name by the plot savers
+
+
+def caller_snapshot(out) -> tuple:
+    """what the caller of a save still holds afterwards: both matrices bit for bit and the parsed arguments"""
+    d, a = np.asarray(out.data), np.asarray(out.actions)
+    return ((d.dtype.str, d.shape, d.tobytes()), (a.dtype.str, a.shape, a.tobytes()),
+            [(k, id(v), repr(v)) for k, v in vars(out.parsed_args).items()])
 
 
 def raw_json(text: str):
@@ -277,6 +314,15 @@ def c19_check_readback(res, where: str, got, exp_data, exp_actions, exp_meta, re
     return ok
 
 
+def _parses_as_object(b: bytes | None) -> bool:
+    if b is None:
+        return False
+    try:
+        return isinstance(raw_json(b.decode()), dict)
+    except Exception:   # noqa: BLE001
+        return False
+
+
 def _canon_nan(a: np.ndarray) -> np.ndarray:
     a = np.array(a, dtype=np.float64, copy=True)
     a[np.isnan(a)] = np.nan
@@ -284,27 +330,40 @@ def _canon_nan(a: np.ndarray) -> np.ndarray:
 
 
 def c19_history(res: StreamResult, script: Script | None, d: Path, sid: str, saves: list[dict]) -> dict:
-    """one history of `save_json` calls in directory `d`; saves = [{"name", "seed", "big"}, …]"""
+    """one history of saves in directory `d`; saves = [{"name", "seed", "big", "via"?, "poison"?, "nonfinite"?}, …]
+    via = direct | alias | fork (`save_json` on d/data.json) | full (`save(d, …)` with ALL savers, plots included);
+    poison = metadata that cannot be serialised: the save legitimately RAISES and must leave the file as it was"""
     import incomplete_cooperative.run.save as S
     d.mkdir(parents=True)
     p = d / TARGET
     if script is not None:
         script.add(f"store reset {sid}", "ok")
     spec: dict[str, tuple] = {}          # name → (data, actions, expected meta) of the FIRST save under it
-    info = {"repeated": False, "has_nan": False}
+    info = {"repeated": False, "has_nan": False, "failed_saves": 0}
     for step, sv in enumerate(saves):
         name = sv["name"]
-        out, kind = rand_output(sv["seed"], sv["big"])
+        out, kind = rand_output(sv["seed"], sv["big"], sv.get("nonfinite", False))
         exp_meta = meta_expected(out.parsed_args)
-        data0, act0 = out.data.copy(), out.actions.copy()
+        poison = sv.get("poison")
+        if poison:
+            poison_output(out, poison)
+        data0, act0 = out.data.copy(), out.actions.copy()      # taken BEFORE the save: what the run produced
+        snap = caller_snapshot(out)
         rp = {"kind": "save-history", "history": saves[:step + 1], "step": step,
-              "how": "in an empty directory call save_json(dir/'data.json', name, rand_output(seed, big)[0]) for every element of "
-                     "`history`, then read the file back (check.py C19 --replay <this file>)"}
+              "how": "in an empty directory, for every element of `history`: out = rand_output(seed, big, nonfinite)[0]; poison_output(out, "
+                     "poison) if poison; then save_json(dir/'data.json', name, out) — or save(dir, name, out) with all SAVERS (matplotlib "
+                     "Agg) when via = 'full' — and read the file back (check.py C19 --replay <this file>)"}
         before = p.read_bytes() if p.exists() else None
         via = sv.get("via", "direct")
         res.count(f"via:{via}")
+        raised = None
         try:
-            if via == "alias":
+            if via == "full":
+                import warnings
+                with warnings.catch_warnings(), np.errstate(all="ignore"):
+                    warnings.simplefilter("ignore")      # np.std of a row with inf, matplotlib on non-finite limits
+                    S.save(d, name, out)
+            elif via == "alias":
                 alias = d.parent / (d.name + "_alias")
                 if not alias.exists():
                     os.symlink(d, alias)
@@ -324,20 +383,61 @@ def c19_history(res: StreamResult, script: Script | None, d: Path, sid: str, sav
             else:
                 S.save_json(p, name, out)
         except Exception as e:           # noqa: BLE001
-            res.violation(f"save_json raised {type(e).__name__}: {e}", rp, key="save_json:raises")
-            break
+            raised = e
         after = p.read_bytes() if p.exists() else None
-        res.evaluations += 1
-        res.count(f"actions:{kind}")
-        res.count(f"data:{data0.shape[0]}x{data0.shape[1]}" if data0.size <= 16 else "data:big")
-        info["has_nan"] = info["has_nan"] or bool(np.isnan(data0).any())
-        if script is not None:
-            script.add(f"store save {sid} {hx(name)} {entry_token(data0, act0, exp_meta)}", "kept" if after == before else "added", rp)
+        if caller_snapshot(out) != snap:
+            changed = [w for w, x, y in zip(("gap matrix", "action matrix", "parsed arguments"), caller_snapshot(out), snap) if x != y]
+            res.violation(f"the save modified the caller's Output object ({', '.join(changed)}): what the run produced is no longer "
+                          "what it holds", dict(rp, changed=changed), key="save:modifies-caller-output")
+        failed = False
+        if raised is not None:
+            if via == "full" and name in spec and isinstance(raised, FileExistsError):
+                # documented: `save()` under an existing name raises in save_draw_coalitions; C19 speaks about data.json,
+                # which is checked below exactly like a save_json under an existing name
+                res.count("save():existing-name-FileExistsError")
+            elif poison:
+                # a save that legitimately fails: "leaves every earlier entry unchanged" = the file is what it was
+                failed = True
+                info["failed_saves"] += 1
+                res.evaluations += 1
+                res.count(f"failed-save:{poison}:{type(raised).__name__}")
+                res.count("failed-save:with-earlier-file" if before is not None else "failed-save:no-earlier-file")
+                if after != before and not (before is None and _parses_as_object(after)):
+                    res.violation(f"a save that raised ({type(raised).__name__}: {str(raised)[:120]}) changed the results file: "
+                                  f"{'absent' if before is None else str(len(before)) + ' bytes'} before, "
+                                  f"{'absent' if after is None else str(len(after)) + ' bytes'} after, "
+                                  f"{'still a JSON object' if _parses_as_object(after) else 'no longer parses'}",
+                                  rp, key="save_json:failed-save-changes-file")
+                if after is None:
+                    continue                 # nothing was ever saved: nothing to read back
+            else:
+                res.violation(f"save_json raised {type(raised).__name__}: {raised}", rp, key="save_json:raises")
+                break
+        elif poison and name not in spec:
+            # un-serialisable metadata was accepted after all (the model has no such save): earlier entries must still be untouched
+            res.count("failed-save:did-not-raise")
+            if before is not None:
+                try:
+                    jb, ja = raw_json(before.decode()), raw_json((after or b"").decode())
+                    if list(ja.keys())[:len(jb)] != list(jb.keys()) or any(ja[k] != jb[k] for k in jb):
+                        res.violation("saving under a new name changed an earlier entry / the order", rp, key="save_json:earlier-entry-changed")
+                except Exception as e:   # noqa: BLE001
+                    res.violation(f"results file does not parse: {e}", rp, key="save_json:unparsable")
+            break
+        if not failed:
+            res.evaluations += 1
+            res.count(f"actions:{kind}")
+            res.count(f"data:{data0.shape[0]}x{data0.shape[1]}" if data0.size <= 16 else "data:big")
+            info["has_nan"] = info["has_nan"] or bool(np.isnan(data0).any())
+            if script is not None:
+                script.add(f"store save {sid} {hx(name)} {entry_token(data0, act0, exp_meta)}", "kept" if after == before else "added", rp)
         # ---- oracle on the real file
-        if after is None:
+        if failed:
+            pass                             # the model has no raising save: no model line, the store is what it was
+        elif after is None:
             res.violation("save_json left no file", rp, key="save_json:no-file")
             break
-        if name in spec:
+        elif name in spec:
             info["repeated"] = True
             res.count("save:existing-name")
             if after != before:
@@ -408,12 +508,40 @@ def run_c19(tier, budget: Budget, rnd) -> StreamResult:
                 # how the save reaches the file: directly, through another spelling of the same path (a symlinked directory),
                 # or from a forked child process — "any sequence of saves" is not restricted to one process and one spelling
                 via = rnd.choice(["direct", "direct", "direct", "alias", "fork"]) if h % 3 == 1 else "direct"
-                saves.append({"name": name, "seed": rnd.randint(0, 10 ** 9), "big": rnd.random() < 0.08, "via": via})
+                sv = {"name": name, "seed": rnd.randint(0, 10 ** 9), "big": rnd.random() < 0.08, "via": via}
+                # a save that legitimately raises part-way through the dump (metadata json cannot write): every second history
+                # holds some, never as the very first save of histories 0 mod 4 (so that an earlier file exists)
+                if h % 2 == 0 and rnd.random() < (0.3 if step else 0.1 if h % 4 else 0.0):
+                    sv["poison"] = rnd.choice(POISONS)
+                saves.append(sv)
             info = c19_history(res, script, base / f"h{h}", f"s{h}", saves)
             if info["repeated"] and info["names"] >= 2 and info["has_nan"]:
                 res.nontrivial.add(("hist", h))
             if h < 2:
                 res.sample({"history": saves})
+        # ------------------------------------------------------------------ save() with ALL savers (plots are slow: a handful)
+        nfull = 3 if tier == "quick" else 25
+        if budget.left() > (14 if tier == "quick" else 90):
+            import matplotlib
+            matplotlib.use("Agg")
+            for h in range(nfull):
+                if budget.left() < (12 if tier == "quick" else 60):
+                    res.notes.append(f"budget: stopped after {h} save() histories")
+                    break
+                saves = []
+                for step in range(rnd.randint(2, 3)):
+                    name = saves[0]["name"] if step == 2 and h % 2 == 0 else rnd.choice([n for n in FULL_NAMES if n not in {s_["name"] for s_ in saves}])
+                    saves.append({"name": name, "seed": rnd.randint(0, 10 ** 9), "big": False, "via": "full", "nonfinite": True})
+                    if step == 1 and h % 3 == 2:
+                        saves[-1]["poison"] = rnd.choice(POISONS)
+                info = c19_history(res, script, base / f"full{h}" / "model", f"f{h}", saves)
+                res.count("history:save()-all-savers")
+                if info["names"] >= 2 and info["has_nan"]:
+                    res.nontrivial.add(("full", h))
+                if h == 0:
+                    res.sample({"history": saves}, limit=4)
+        else:
+            res.notes.append("budget: save() histories skipped")
         # ------------------------------------------------------------------ commands
         if budget.left() > 8:
             run_commands(tier, budget, rnd, res, base)
